@@ -69,6 +69,7 @@ def batch(prop, mod, a):
     states = set()
     nontrivial = set()
     runs = []
+    tail_runs = []
     violations = []
     known_counts = Counter()
     known_examples = {}
@@ -93,6 +94,8 @@ def batch(prop, mod, a):
         agg.update(f"{i}:{sched}:{s['obs_digest']};".encode())
         if a.per_run:
             runs.append([i, sched, s["obs_digest"]])
+        if i >= a.start + a.count - 2:
+            tail_runs.append([i, sched, s["obs_digest"]])     # the runs with the longest process history
         ops.update(res.ops)
         faults.update(res.faults)
         probes.update(res.probes)
@@ -112,7 +115,7 @@ def batch(prop, mod, a):
                 known_examples[k] = {"index": i, "run": run, **res.known_example[k]}
     out = {
         "prop": prop, "hash_seed": os.environ.get("PYTHONHASHSEED"), "start": a.start,
-        "count": a.count, "agg_digest": agg.hexdigest()[:24], "runs": runs,
+        "count": a.count, "agg_digest": agg.hexdigest()[:24], "runs": runs, "tail_runs": tail_runs,
         "ops": dict(ops), "faults": dict(faults), "probes": dict(probes),
         "states": sorted(states), "nontrivial": sorted(nontrivial),
         "violations": violations, "known": dict(known_counts),
